@@ -190,6 +190,7 @@ func checkC11(c *core.Ctx) {
 	r5 := c.Rule("R11.5", "T", "pool removal only for completed connections; FlushAll closes everything it visits")
 
 	r6 := c.Rule("R11.6", "T", "no use after release: once a page is handed back to the page cache, fields the cache overwrites (or any field, when the cache is a shared pool) are not read again in that function")
+	r8 := c.Rule("R11.8", "T", "functions that take pages from the cache report the number taken by counting them")
 	r7 := c.Rule("R11.7", "T", "free-list discipline: a connection is pushed on the pool's free list only when it was found in the live map, or only from the once-per-connection close function")
 	for _, pkg := range []string{"reassembly", "tcpassembly"} {
 		lp := &lifePkg{pkg: pkg, closers: map[*ssa.Function]bool{}, notClose: map[string]int{}}
@@ -547,6 +548,68 @@ func checkC11(c *core.Ctx) {
 				r6.Missing(pkg+"/release-sites", fmt.Sprintf("only %d page release sites found", nSites))
 			}
 			c.Counts[pkg+"_release_sites"] = nSites
+		}
+
+		// ---- R11.8: page counts are counted, not computed
+		{
+			nextFn := p.Func(pkg, "pageCache.next")
+			nF := 0
+			for _, fn := range fns {
+				if nextFn == nil || fn == nextFn {
+					continue
+				}
+				calls := 0
+				core.Instrs(fn, func(ins ssa.Instruction) {
+					if cc := core.CallCommonOf(ins); cc != nil && cc.StaticCallee() == nextFn {
+						calls++
+					}
+				})
+				if calls == 0 {
+					continue
+				}
+				res := fn.Signature.Results()
+				idx := -1
+				for i := 0; i < res.Len(); i++ {
+					if bt, ok := res.At(i).Type().Underlying().(*types.Basic); ok && bt.Kind() == types.Int {
+						idx = i
+					}
+				}
+				if idx < 0 {
+					continue
+				}
+				nF++
+				bad := ""
+				seen := map[ssa.Value]bool{}
+				var walk func(v ssa.Value, d int)
+				walk = func(v ssa.Value, d int) {
+					if d > 12 || seen[v] || bad != "" {
+						return
+					}
+					seen[v] = true
+					switch x := v.(type) {
+					case *ssa.Const:
+					case *ssa.Phi:
+						for _, e := range x.Edges {
+							walk(e, d+1)
+						}
+					case *ssa.BinOp:
+						if k, ok := core.ConstInt(x.Y); ok && x.Op == token.ADD && k == 1 {
+							walk(x.X, d+1)
+						} else {
+							bad = "computed with " + x.Op.String()
+						}
+					default:
+						bad = "not a counter"
+					}
+				}
+				for _, ret := range core.Returns(fn) {
+					walk(core.RetOperand(ret, idx), 0)
+				}
+				r8.Check(bad == "", core.FnKey(fn)+"/page-count", p.Pos(fn.Pos()), "the returned page count is a counter incremented per page taken", "the number of pages reported to the per-connection accounting is "+bad+" instead of being counted as pages are taken from the cache: whenever the two differ (a payload-less segment still takes a page) buffered pages are not accounted and the per-connection limit is overshot")
+			}
+			if nF == 0 {
+				r8.Missing(pkg+"/page-producing functions", "none found")
+			}
 		}
 
 		// ---- R11.7: free-list discipline of the stream pool
